@@ -97,7 +97,8 @@ INFO = dict(
                "whose rule weights are symbolic reals mapped through Boolean(x > 0) exactly as the library does (z3 decides the sign tests; zero and "
                "negative both mean absent), so each skeleton contributes its whole sub-grammar lattice (nullable, unary-cyclic, useless symbols, empty "
                "language); for every context up to the bound -- viable or not, also containing EOS -- the offered token set is compared with an "
-               "independent Boolean viable-prefix decision (fixed point over span / open-end items) and EOS with plain membership.",
+               "independent Boolean viable-prefix decision (fixed point over span / open-end items) and EOS with plain membership. Every context is "
+               "queried once in order of increasing length and then again in reverse order on the same object.",
     level_note="The solver's universal quantifier is over the weight values only; grammars, contexts, rule orders, renamings and hash seeds are bounded "
                "enumerations (hash seed sampled). Trusted: CPython, z3, SNum proxy, Boolean reference.",
     design_ref="DESIGN.md section 3 C01",
